@@ -303,6 +303,21 @@ def r5_single_durability_point(ctx, prog):
         wr = [i for i, e in enumerate(evs) if e[1] in W and i > tr[0]]
         if fl and wr and min(fl) < max(wr):
             bad = (oc, evs[min(fl)])
+    # the rewrite starts from an empty file: the truncate precedes the first write (a crash then leaves a prefix of the new content, never new head + old tail)
+    torn = None
+    for oc in o.outcomes:
+        evs = [e for e in oc['events'] if e[0] == 'call']
+        wr = [i for i, e in enumerate(evs) if e[1] in W]
+        tr = [i for i, e in enumerate(evs) if e[1] == 'truncate']
+        if wr and (not tr or min(tr) > min(wr)):
+            torn = (oc, evs[min(wr)])
+    # paths that write but never truncate are not in `n`: look at them too
+    o_all = [oc for oc in o.outcomes if any(e[0] == 'call' and e[1] in W for e in oc['events'])]
+    if torn:
+        r.violation(f['qname'], 'truncate before the first write', 'the first write (%s, line %s) happens before the file was cut to zero length: the old content is overwritten in place, and a crash leaves the head of the new version followed by the tail of the old one — '
+                    'an object that is neither its old nor its new state, or one that no longer parses although nothing was being truncated' % (torn[1][1], torn[1][3]), file=f['file'], line=torn[1][3], path=torn[0]['path'])
+    elif o_all:
+        r.ok(f['qname'], 'truncate before the first write', '%d writing paths' % len(o_all), file=f['file'], line=f['line'])
     if bad:
         r.violation(f['qname'], 'flush placement', '%s at line %s is followed by further writes of the same rewrite: the file on disk grows record by record, and the loader takes every such prefix (it ends at a record boundary) for a complete object — '
                     'a crash hands out the key with attributes missing or stale' % (bad[1][1], bad[1][3]), file=f['file'], line=bad[1][3], path=bad[0]['path'])
